@@ -72,7 +72,7 @@ for e, fns, rep, dfn, d in (
 # hence the late import, resolved by engine/check.py)
 def _shared():
     from obligations import C08 as _c08
-    _r = [o for o in _c08.OBLIGATIONS if o.name in ('C08.O5.add_bucket', 'C07.O2.gc_bucket_small', 'C07.O2.gc_bucket')]
+    _r = [o for o in _c08.OBLIGATIONS if o.name in ('C08.O5.add_bucket', 'C07.O2.gc_bucket_small', 'C07.O2.gc_bucket', 'C08.O3.alloc_free_mmap', 'C08.O3.alloc_table_order', 'C08.O3.bucket_at_order', 'C08.O3.bucket_at_chunk', 'C08.O3.bucket_at_mmap')]
     from obligations import C10 as _c10
     _r += [o for o in _c10.OBLIGATIONS if o.name in ('C10.O1.enqueue', 'C10.O1.splice')]
     return _r
